@@ -1150,12 +1150,13 @@ theorem parseInst_ref (G : Tables) (hc : coreKindsOk G = true) (τ : Tracker) (i
 structure Keeps (d d' : DState) : Prop where
   bytes : d'.bytes = d.bytes
   inv : C11.Inv d → C11.Inv d'
+  mono : d.offset ≤ d'.offset
   pos : ∀ l, d.limit = some l → ∃ l', d'.limit = some l' ∧ d'.offset + 4 * l' = d.offset + 4 * l
 
-theorem Keeps.refl (d : DState) : Keeps d d := ⟨rfl, id, fun l h => ⟨l, h, rfl⟩⟩
+theorem Keeps.refl (d : DState) : Keeps d d := ⟨rfl, id, Nat.le_refl _, fun l h => ⟨l, h, rfl⟩⟩
 
 theorem Keeps.trans {a b c : DState} (h1 : Keeps a b) (h2 : Keeps b c) : Keeps a c :=
-  ⟨h2.bytes.trans h1.bytes, fun h => h2.inv (h1.inv h), fun l hl => by
+  ⟨h2.bytes.trans h1.bytes, fun h => h2.inv (h1.inv h), Nat.le_trans h1.mono h2.mono, fun l hl => by
     obtain ⟨l1, e1, p1⟩ := h1.pos l hl
     obtain ⟨l2, e2, p2⟩ := h2.pos l1 e1
     exact ⟨l2, e2, by omega⟩⟩
@@ -1167,7 +1168,7 @@ theorem word_keeps (d : DState) (v : Nat) (d' : DState) (h : word d = (.ok v, d'
   rcases word_spec d with ⟨_, hw⟩ | ⟨hl0, hb, hw⟩ | ⟨_, _, hw⟩ <;> rw [hw] at h
   · cases h
   · cases h
-    refine ⟨rfl, fun _ => by unfold C11.Inv; simpa using hb, ?_⟩
+    refine ⟨rfl, fun _ => by unfold C11.Inv; simpa using hb, by simp, ?_⟩
     intro l hl
     cases l with
     | zero => exact absurd hl hl0
@@ -1180,7 +1181,7 @@ theorem string_keeps (d : DState) (hi : C11.Inv d) (hs : Small d) (bs : List Nat
   rw [h] at ok
   obtain ⟨nul, _, _, _, _, hoff, hin, hb, hlim, _⟩ := ok bs rfl
   dsimp only at hoff hin hb hlim
-  refine ⟨hb, fun _ => by unfold C11.Inv; rw [hb]; exact hin, ?_⟩
+  refine ⟨hb, fun _ => by unfold C11.Inv; rw [hb]; exact hin, by omega, ?_⟩
   intro l hl
   obtain ⟨hle, hl'⟩ := hlim l hl
   exact ⟨_, hl', by omega⟩
